@@ -147,7 +147,7 @@ var c19Names = map[int]string{
 	1: "bitmap.Rank64", 2: "bitmap.Rank128", 3: "bitmap.Select32", 4: "bitmap.Select32R64", 5: "bitmap.NextOne",
 	6: "bitmap.PrevOne", 7: "bitmap.Slice", 8: "bitmap.ToArray", 9: "bitmap.Getw", 10: "bitmap.FromStr32",
 	11: "bitmap.Get", 12: "bitmap.Get1", 13: "bitmap.SafeGet", 14: "bitmap.SafeGet1",
-	15: "bitmap.IndexRank64", 16: "bitmap.IndexRank128", 17: "bitmap.IndexSelect32", 18: "bitmap.IndexSelect32R64",
+	15: "bitmap.IndexRank64", 16: "bitmap.IndexRank128", 17: "bitmap.IndexSelect32", 18: "bitmap.IndexSelect32R64", 19: "bitmap.Fmt",
 	20: "bmtree.PathToIndex", 21: "bmtree.PathToIndexLoose", 22: "bmtree.IndexToPath", 23: "bmtree.AllPaths", 24: "bmtree.Decode",
 	25: "bmtree.PathOf", 26: "bmtree.PathsOf",
 	30: "bitstr.Cmp", 31: "bitstr.CmpUpto", 32: "bitstr.StrCmpUpto", 33: "bitstr.Len", 34: "bitstr.New",
@@ -252,6 +252,8 @@ func c19Do(sh *c19Shared, c c19Call) string {
 	case 18:
 		a, b := bitmap.IndexSelect32R64(sh.words)
 		return L(c19I32s(a), c19I32s(b))
+	case 19:
+		return Str(bitmap.Fmt(sh.words) + "|" + bitmap.Fmt(sh.r64))
 	case 20:
 		return I32(bmtree.PathToIndex(sh.tsize, c.p1))
 	case 21:
@@ -444,7 +446,7 @@ func (x *c19Gen) n() int { return 64 * len(x.words) }
 
 // one random in-domain call of function fid (ok=false: no in-domain argument exists for these inputs)
 // bitmap functions that can run on the second shared bitmap (function id + 100)
-var c19AltOK = map[int]bool{60: true, 61: true, 62: true, 1: true, 2: true, 3: true, 4: true, 5: true, 6: true, 7: true, 8: true, 9: true,
+var c19AltOK = map[int]bool{19: true, 60: true, 61: true, 62: true, 1: true, 2: true, 3: true, 4: true, 5: true, 6: true, 7: true, 8: true, 9: true,
 	11: true, 12: true, 13: true, 14: true, 15: true, 16: true, 17: true, 18: true, 24: true}
 
 func (x *c19Gen) call(fid int) (c19Call, bool) {
@@ -495,7 +497,7 @@ func (x *c19Gen) callOn(fid int) (c19Call, bool) {
 	case 7:
 		f := r.Intn(n + 1)
 		c.p1, c.p2 = uint64(f), uint64(r.Range(f, n))
-	case 8, 15, 16, 17, 18, 24, 50, 53, 60:
+	case 8, 15, 16, 17, 18, 19, 24, 50, 53, 60:
 	case 61:
 		c.p1 = uint64(r.Intn(len(x.words) + 1))
 	case 62:
@@ -765,7 +767,7 @@ func genC19(g *Gen) {
 		add(3, uint64(k))
 		add(4, uint64(k))
 	}
-	for _, f := range []int{8, 15, 16, 17, 18, 24, 50, 53, 60} {
+	for _, f := range []int{8, 15, 16, 17, 18, 19, 24, 50, 53, 60} {
 		add(f)
 	}
 	for k := 0; k <= len(x.words); k++ {
@@ -868,7 +870,7 @@ func genC19(g *Gen) {
 			alt(3, uint64(k))
 			alt(4, uint64(k))
 		}
-		for _, f := range []int{8, 15, 16, 17, 18, 24, 60} {
+		for _, f := range []int{8, 15, 16, 17, 18, 19, 24, 60} {
 			alt(f)
 		}
 		for k := 0; k <= len(x.words2); k++ {
